@@ -181,6 +181,19 @@ def o_sign_verify(case):
         else:
             others += [("keys.bip32_seed-less node", lambda: net.keys.bip32_deserialize(
                 b"\0\0\0\0" + b"\0" * 9 + b"\x11" * 32 + bytes([2 + (Q[1] & 1)]) + Q[0].to_bytes(32, "big")))]
+        if comp and msg.isalnum():
+            # the signer is a BIP84 account key: its address() - what the armoured form carries - is the native segwit
+            # address of the same key hash; the armoured text it writes must verify when read back
+            def armoured_by_bip84():
+                node = net.keys.bip84_deserialize(b"\0" * 13 + b"\x11" * 32 + b"\0" + d.to_bytes(32, "big"))
+                if node is None or not isinstance(node.address(), str):
+                    return None
+                m2, a2, s2 = net.msg.parse_signed(net.msg.sign(node, msg, verbose=True))
+                return (m2, a2, net.msg.verify(a2, s2, m2), node.address())
+            res = total(armoured_by_bip84, "%s: armoured signature by the BIP84 node of the key" % where)
+            if res is not None and (res[0] != msg or res[1] != res[3] or res[2] is not True):
+                _bad("msg:own-signature-rejected:bip84-armoured", "%s: sign(BIP84 node, verbose) read back as message %r address %r (node address %r), "
+                     "verify = %r" % (where, res[0][:40], res[1], res[3], res[2]))
         for name, mk in others:
             target = total(mk, "%s: building %s" % (where, name))
             if target is None:
